@@ -26,6 +26,10 @@ import (
 const c18SigBody = 200000
 
 func c18Child(addr string) {
+	if len(os.Args) > 3 { // X18: the child of op c18spin (see c18x.go)
+		c18xChild(os.Args[2:])
+		return
+	}
 	hlog.SetLevel(hlog.LevelFatal)
 	h := server.New(server.WithHostPorts(addr), server.WithExitWaitTime(3*time.Second))
 	h.GET("/slow", func(_ context.Context, ctx *app.RequestContext) {
